@@ -180,6 +180,21 @@ def exec_op(inp):
         sep = B(inp["sep"])
         items = [enc.build_value(v) for v in inp["items"]]
         ev["res"] = enc_res(lambda: sep.join(items))
+    elif op in ("splice", "append") and inp["new"]["k"] == "s" and any(c in (27, 155) for t, _ in inp["new"]["v"] for c in t):
+        # a plain str that carries SGR sequences is parsed by splice / append: the equivalent spelling the verdict is
+        # computed from is the same call with the parsed value
+        from curtsies.formatstring import FmtStr
+        f = B(inp["f"])
+        new = enc.build_value(inp["new"])
+        ev["new"] = {"k": "f", "v": enc.enc_fmtstr(FmtStr.from_str(new))}
+        ev["rawnew"] = inp["new"]
+        if op == "append":
+            ev["res"] = enc_res(lambda: f.append(new))
+        elif inp["en"]:
+            ev["res"] = enc_res(lambda: f.splice(new, inp["s"]))
+        else:
+            ev["res"] = enc_res(lambda: f.splice(new, inp["s"], inp["e"]))
+        ev["f2"] = enc.enc_fmtstr(f)
     elif op == "splice":
         f = B(inp["f"])
         new = enc.build_value(inp["new"])
